@@ -371,3 +371,42 @@ func VerifC18_BasicUpload() {
 		verifAssert(req.Header.Get("Content-Length") == "14" && req.ContentLength == 14, "Content-Length is the object's size")
 	}
 }
+
+// VerifC18_CorruptedBatchResponse: single-field corruptions of an otherwise
+// valid batch response: a hash_algo member that is not the string "sha256"
+// (another string, or a value of another JSON type: array, object, number,
+// boolean) is never acted upon - the batch call fails; a response that is not
+// JSON at all fails too.
+func VerifC18_CorruptedBatchResponse() {
+	verifSeenReqs = nil
+	api := lfsapi.VerifNewClient(verifEndpoints{url: "https://lfs.example.com/repo.git/info/lfs"})
+	m := &concreteManifest{maxRetries: 1, downloadAdapterFuncs: verifAdapters(0), batchClientAdapter: &tqClient{Client: api, maxRetries: 1}}
+	m.uploadAdapterFuncs = m.downloadAdapterFuncs
+	oid := "98ea6e4f216f2fb4b69fff9b3a44842c38686ca685f3f55dc48c5d3fb1107be4"
+	objects := []*Transfer{{Oid: oid, Size: 12}}
+	good := `{"transfer":"basic","objects":[{"oid":"` + oid + `","size":12,"actions":{"download":{"href":"https://lfs.example.com/objects/` + oid + `"}}}]`
+	kind := verifChoose("corruption", 7)
+	body := good + []string{
+		`}`,                               // 0: no hash_algo at all: fine
+		`,"hash_algo":"sha256"}`,          // 1: fine
+		`,"hash_algo":"sha512"}`,          // 2: unsupported
+		`,"hash_algo":["sha512"]}`,        // 3: wrong JSON type
+		`,"hash_algo":{"name":"sha512"}}`, // 4
+		`,"hash_algo":512}`,               // 5
+		`,"hash_algo":true}`,              // 6
+	}[kind]
+	lfsapi.VerifAPIAnswer = func(remote string, req *http.Request) (*http.Response, error) {
+		verifRecord(req)
+		r := verifJSONResponse(200, body)
+		r.Request = req // a real response names its request (error messages use it)
+		return r, nil
+	}
+	bRes, err := Batch(m, Download, "origin", verifRef(), objects)
+	if kind <= 1 {
+		verifCover("valid-response")
+		verifAssert(err == nil && bRes != nil && len(bRes.Objects) == 1, "a valid response is accepted")
+		return
+	}
+	verifCover("corrupted-hash-algo")
+	verifAssert(err != nil, "a response whose hash_algo is anything but the string sha256 is rejected, not acted upon")
+}
